@@ -489,4 +489,24 @@ end
 /-- for every operand that needs a cast: which cast feeds it -/
 def assignCasts (fixed : Bool) (b : MBlk) : List (List Nat × Nat × List Nat) := (b.walk fixed [] 0 ⟨[], []⟩).out
 
+/-! ## run-time shape of the stand-in buffer (`RealizeMemrefCasts`, dynamic dimensions) -/
+
+/-- the indices of the `memref.dim` ops that size the allocation: one per dynamic entry (`none`) of the cast's shape,
+    namely the POSITION of that entry in the shape (`k` = position of the head) -/
+def dynIdx : List (Option Nat) → Nat → List Nat
+  | [], _ => []
+  | none :: r, k => k :: dynIdx r (k + 1)
+  | some _ :: r, k => dynIdx r (k + 1)
+
+/-- run-time shape of `memref.alloc(dyn operands) : memref<shape>`: static entries from the type, dynamic entries
+    from the operands in order (a missing operand counts as 0) -/
+def allocShape : List (Option Nat) → List Nat → List Nat
+  | [], _ => []
+  | some n :: r, ops => n :: allocShape r ops
+  | none :: r, ops => ops.headD 0 :: allocShape r ops.tail
+
+/-- run-time shape of the stand-in buffer of a cast of a source with run-time shape `rt` -/
+def standInShape (shape : List (Option Nat)) (rt : List Nat) : List Nat :=
+  allocShape shape ((dynIdx shape 0).map fun i => rt.getD i 0)
+
 end SnaxVerif.Casts
